@@ -90,7 +90,7 @@ pub fn seq_case_from_bytes(data: &[u8]) -> SeqCase {
             14 => Op::ReadAll { keys: vec![byte(u) % max_key] },
             _ => {
                 let count = 1 + byte(u) % 6;
-                Op::Stall { burst: (0..count).map(|_| if byte(u) % 6 == 0 { read_op(u, max_key) } else { write_op(u, max_key) }).collect() }
+                Op::Stall { burst: (0..count).map(|_| match byte(u) % 8 { 0 => read_op(u, max_key), 1 => Op::StepWorker, _ => write_op(u, max_key) }).collect() }
             }
         };
         ops.push(op);
